@@ -25,6 +25,34 @@ func register(p *core.Profile) {
 // Profiles returns the profiles of a property.
 func Profiles(prop string) []*core.Profile { return registry[prop] }
 
+// ProfilesFor returns the profiles of a property that run in the given tier.
+func ProfilesFor(prop, tier string) []*core.Profile {
+	var out []*core.Profile
+	for _, p := range registry[prop] {
+		if p.ThoroughOnly && tier != "thorough" {
+			continue
+		}
+		out = append(out, p)
+	}
+	return out
+}
+
+// registerDeep registers a thorough-tier variant of a profile whose runs are
+// `scale` times as long (same scenario code, same oracles).
+func registerDeep(base string, scale int) {
+	b := Find(base)
+	if b == nil {
+		panic("registerDeep: no profile " + base)
+	}
+	d := *b
+	d.Name = base + "-deep"
+	d.Weight = 1
+	d.ThoroughOnly = true
+	d.Scale = scale
+	d.Doc = fmt.Sprintf("%s, with runs %d times as long (thorough tier only)", base, scale)
+	register(&d)
+}
+
 func Find(name string) *core.Profile {
 	for _, ps := range registry {
 		for _, p := range ps {
